@@ -122,6 +122,21 @@ def gen_rotvec(r, style):
     raise ValueError(style)
 
 
+# every angle scale from 1e-8 rad to pi, one decade after the other (class: a branch that exists only in a band of angles —
+# a small-angle series between 5e-5 and 1e-3, say — combined with one of the two representatives +-q)
+SCALE_DECADES = [-8, -7, -6, -5, -4.3, -4, -3.7, -3.3, -3, -2.5, -2, -1, -0.5, 0, 0.3]
+
+
+def scale_norm(r, k):
+    d = SCALE_DECADES[k % len(SCALE_DECADES)]
+    return min(10 ** (d + r.uniform(0.0, 0.5)), math.pi - 10 ** r.uniform(-9, -1))
+
+
+def scale_rotvec(r, k):
+    n = scale_norm(r, k)
+    return [n * x for x in (axis_dir(r) if r.random() < 0.3 else rand_dir(r))]
+
+
 RV_STYLES = ["general", "general", "near-cut", "near-cut", "near-pi", "zero", "tiny"]
 
 
@@ -194,9 +209,99 @@ def mk_qmean(w, qs, **meta):
     return case("qmean", " ".join(["qmean", str(len(qs))] + [hexd(x) for x in w] + cm(qs)), w=w, q=qs, **meta)
 
 
+def tie_weights(r, n):
+    """class q: positive weights with exact coincidences between arbitrary pairs of entries (w(1) == w(N-1), w(0) == w(N-1), w(0) == w(1),
+    neighbours, a random pair, all equal but one, equal halves) while other entries differ"""
+    w = [r.uniform(0.05, 1.0) for _ in range(n)]
+    for _ in range(r.choice([1, 1, 2])):
+        pat = r.choice(["1,N-1", "1,N-1", "0,N-1", "0,1", "1,2", "pair", "all-but-one", "halves"])
+        if pat == "1,N-1" and n >= 3:
+            w[n - 1] = w[1]
+        elif pat == "0,N-1":
+            w[n - 1] = w[0]
+        elif pat == "0,1":
+            w[1] = w[0]
+        elif pat == "1,2" and n >= 3:
+            w[2] = w[1]
+        elif pat == "all-but-one" and n >= 3:
+            k = r.randrange(1, n - 1) if n >= 4 and r.random() < 0.7 else r.randrange(n)
+            w = [w[0] if i != k else w[0] * r.choice([0.25, 3.0]) for i in range(n)]
+        elif pat == "halves":
+            h = n // 2
+            w = [w[0]] * h + [w[-1]] * (n - h)
+        else:
+            i, j = r.randrange(n), r.randrange(n)
+            w[j] = w[i]
+    s = 2.0 ** math.floor(math.log2(math.fsum(w))) if r.random() < 0.7 else math.fsum(w)   # power of two: ties survive bit for bit
+    return [x / s for x in w]
+
+
+def mk_qchain(q, rs, **meta):
+    return case("qsumchain", " ".join(["qsumchain", str(len(rs))] + cm([q]) + cm(rs)), q0=q, r=rs, **meta)
+
+
+def gen_chain(g, n_each):
+    """histories: an attitude state driven through n successive calls of sum_quaternion_rotation_vector (model: `sumTrace`);
+    style `unwind` appends the negated increments in reverse order — the history nets to nothing (`chain_unwind`: exactly, cut-off included)"""
+    r = g.r
+    out = []
+    lens = [1, 2, 3, 5, 8, 16, 17, 33, 64, 100]
+    for k in range(n_each):
+        n = lens[k % len(lens)]
+        st = ["general", "near-cut", "every-scale", "tiny", "near-pi", "constant-rate"][(k // len(lens)) % 6]
+        q = gen_quat(r, r.choice(Q_STYLES))
+        rs = [scale_rotvec(r, j + k) if st == "every-scale" else gen_rotvec(r, st if r.random() < 0.8 else r.choice(RV_STYLES)) for j in range(n)] if st != "constant-rate" else None
+        if st == "constant-rate":
+            # the same increment applied n times (constant angular velocity): a result cached on the increment alone would be stale
+            v = scale_rotvec(r, k)
+            rs = [list(v) for _ in range(n)]
+        if k % 2 == 0:
+            out.append(mk_qchain(q, rs, style="chain:" + st))
+        else:
+            out.append(mk_qchain(q, rs + [[-x for x in v] for v in reversed(rs)], style="chain-unwind:" + st, unwind=True))
+    return out
+
+
+def check_chain(cases, H, D, P, stats):
+    for idx, c in enumerate(cases):
+        if c["op"] != "qsumchain":
+            continue
+        n = len(c["r"])
+        cols, why = parse_cols(H[idx], 4, n)
+        if cols is None:
+            P.append(("prop", "chain:no-result", "a history of %d calls of sum_quaternion_rotation_vector failed: %s" % (n, why), idx)); continue
+        dcols, br = parse_cols(D.get(idx, "missing"), 4, n)
+        if dcols is None:
+            P.append(("corr", "chain:model-undefined", "driver: %s" % br, idx)); br = []
+        for b in br:
+            stats["branches"]["chain/" + b] = stats["branches"].get("chain/" + b, 0) + 1
+        stats["chain_steps"] = stats.get("chain_steps", 0) + n
+        prev = c["q0"]
+        for j, q in enumerate(cols):
+            if not finite(q):
+                P.append(("prop", "chain:not-finite", "step %d of a history of sums is %r" % (j, q), idx)); break
+            ud = unit_defect(q)
+            stats["max_chain_unit_defect"] = max(stats.get("max_chain_unit_defect", 0.0), ud)
+            if ud > 1e-13 * (j + 2):
+                P.append(("prop", "chain:not-unit", "step %d of a history of sums started at a unit quaternion has squared norm 1%+.3g" % (j, math.fsum(x * x for x in q) - 1.0), idx))
+            d = rotdist(q, qmul(true_exp(c["r"][j]), prev))
+            if d > BOUND + SLACK:
+                P.append(("prop", "chain:wrong-step", "step %d of a history of sums is %.6g rad away (as a rotation) from exp(r/2)-quaternion * previous state; bound %.1e" % (j, d, BOUND), idx))
+            if dcols is not None and rotdist(q, dcols[j]) > SLACK * (j + 1):
+                P.append(("corr", "chain:model-vs-impl", "step %d: model %r implementation %r" % (j, dcols[j], q), idx))
+            prev = q
+        if c.get("unwind") and cols and finite(cols[-1]):
+            e = rotdist(cols[-1], c["q0"])
+            stats["max_chain_unwind_dev"] = max(stats.get("max_chain_unwind_dev", 0.0), e)
+            if e > 1e-13 * (n + 8) * 8:
+                P.append(("prop", "chain:unwind", "%d increments followed by their negatives in reverse order end %.3g rad away from the initial quaternion %r (exp(-r) is the conjugate of exp(r) in either branch: the history nets to nothing)" % (n // 2, e, c["q0"]), idx))
+
+
 def mean_weights(r, n, style):
     if n == 1:
         return [1.0]
+    if style == "ties":
+        return tie_weights(r, n)
     if style == "uniform":
         return [1.0 / n] * n
     w = [r.uniform(0.05, 1.0) for _ in range(n)]
@@ -204,7 +309,10 @@ def mean_weights(r, n, style):
     return [x / s for x in w]
 
 
-WIDTHS = [1, 2, 3, 4, 5, 6, 7, 8, 15, 16, 17, 31, 32, 33, 40, 12, 24]      # incl. SIMD / fast-path boundaries
+WIDTHS = [1, 2, 3, 4, 5, 6, 7, 8, 15, 16, 17, 31, 32, 33, 40, 12, 24]      # incl. SIMD / fast-path boundaries; non-monotone on purpose
+# class p: long batches at chunk boundaries (multiples of 64 / 128 / 256 and their neighbours, up to 1025), every run, every function;
+# the order is non-monotone (class v: a static scratch matrix that only grows keeps stale columns when a shorter batch follows)
+LONG_WIDTHS = [256, 63, 1024, 64, 65, 512, 127, 128, 129, 255, 257, 1025, 511, 513, 768, 1023, 2, 1]
 DIFF_STYLES = ["independent", "close", "coincident", "opposite-cover", "half-turn-apart", "close", "coincident"]
 
 
@@ -303,6 +411,61 @@ def gen_phase1(g, n_each):
         # double cover: the real function again with negated operands
         cases.append(mk_qdiff([[-x for x in c] for c in ql], qr, style=st, sibling="neg-left", of=base))
         cases.append(mk_qdiff(ql, [[-x for x in c] for c in qr], style=st, sibling="neg-right", of=base))
+    # ---- antipodal representatives at every angle scale 1e-8 .. pi, every function that takes a quaternion
+    n_scale = max(2, n_each // 30)
+    for rep in range(n_scale):
+        n = len(SCALE_DECADES) * 2
+        rs = [scale_rotvec(r, k // 2) for k in range(n)]
+        sg = [1.0 if k % 2 == 0 else -1.0 for k in range(n)]
+        if rep % 2 == 1:
+            sg = [r.choice([1.0, -1.0]) for _ in range(n)]
+        # logarithm: columns 2k, 2k+1 hold the same angle scale with the two signs; sibling: every column negated
+        qs = [[s_ * x for x in true_exp(v)] for s_, v in zip(sg, rs)]
+        base = len(cases)
+        cases.append(mk_qlog(qs, style="antipodal-scale"))
+        cases.append(mk_qlog([[-x for x in c] for c in qs], style="antipodal-scale", sibling="neg", of=base))
+        # difference: q_l = +-(exp(r) q_r), q_r with either sign of w
+        qr = [gen_quat(r, r.choice(["uniform", "negative-w", "half-turn", "identity"]))]
+        ql = [[s_ * x for x in qmul(true_exp(v), qr[0])] for s_, v in zip(sg, rs)]
+        base = len(cases)
+        cases.append(mk_qdiff(ql, qr, style="antipodal-scale"))
+        cases.append(mk_qdiff([[-x for x in c] for c in ql], qr, style="antipodal-scale", sibling="neg-left", of=base))
+        cases.append(mk_qdiff(ql, [[-x for x in c] for c in qr], style="antipodal-scale", sibling="neg-right", of=base))
+        # sum: the base quaternion with either sign (the result is the same rotation)
+        qb = [gen_quat(r, r.choice(Q_STYLES))]
+        base = len(cases)
+        cases.append(mk_qsum(qb, rs, style="antipodal-scale"))
+        cases.append(mk_qsum([[-x for x in qb[0]]], rs, style="antipodal-scale", sibling="neg-base", of=base))
+        cases.append(mk_qexp(rs, style="every-scale"))
+    # ---- long batches (chunk boundaries), non-monotone order
+    for n in (LONG_WIDTHS if n_each < 1000 else LONG_WIDTHS * 3):
+        st = r.choice(["general", "near-cut"])
+        rs = [gen_rotvec(r, st if r.random() < 0.8 else r.choice(RV_STYLES)) for _ in range(n)]
+        cases.append(mk_qexp(rs, style="long"))
+        qs = [gen_quat(r, r.choice(Q_STYLES)) for _ in range(n)]
+        cases.append(mk_qlog(qs, style="long"))
+        qb = [gen_quat(r, r.choice(Q_STYLES))]
+        cases.append(mk_qsum(qb, rs, style="long"))
+        ql = [list(qmul(true_exp(v), qb[0])) if r.random() < 0.7 else gen_quat(r, "uniform") for v in rs]
+        cases.append(mk_qdiff(ql, qb, style="long"))
+    # ---- class a/v: consecutive calls of the SAME function with the same width and different content, and with the same
+    # batch and a different single quaternion (a result cached on the first call and keyed on a size or on one argument only)
+    for n in (1, 3, 16):
+        for rep in range(2):
+            rs = [gen_rotvec(r, "general") for _ in range(n)]
+            cases.append(mk_qexp(rs, style="same-width"))
+        for rep in range(2):
+            cases.append(mk_qlog([gen_quat(r, "uniform") for _ in range(n)], style="same-width"))
+        rs = [gen_rotvec(r, "general") for _ in range(n)]
+        for rep in range(3):
+            cases.append(mk_qsum([gen_quat(r, "uniform")], rs if rep == 1 else [gen_rotvec(r, "general") for _ in range(n)], style="same-width"))
+            if rep == 0:
+                rs = cases[-1]["r"]
+        ql = [gen_quat(r, "uniform") for _ in range(n)]
+        for rep in range(3):
+            cases.append(mk_qdiff(ql if rep == 1 else [gen_quat(r, "uniform") for _ in range(n)], [gen_quat(r, "uniform")], style="same-width"))
+            if rep == 0:
+                ql = cases[-1]["ql"]
     return cases
 
 
@@ -315,24 +478,50 @@ def unscented_weights(r, k):
 def gen_mean(g, n_each):
     r = g.r
     cases = []
-    styles = ["random", "clustered", "all-equal", "symmetric", "symmetric-unscented", "single", "unscented-wide"]
+    styles = ["random", "clustered", "all-equal", "symmetric", "symmetric-unscented", "single", "unscented-wide", "ties", "antipodal-scale", "long"]
+    long_i = 0
     for k in range(n_each):
         st = styles[k % len(styles)]
         extra = {}
-        if st == "single":
+        if st == "ties":
+            # weights with coincidences between pairs of entries; inputs spread widely so that a mis-weighted input moves the mean
+            n = r.choice([3, 4, 5, 5, 6, 7, 9, 16, 17, 33])
+            c = gen_quat(r, "uniform")
+            sp = r.choice([0.3, 0.7, 1.0])
+            qs = [list(qmul(true_exp([sp * x for x in gen_rotvec(r, "quarter")]), c)) for _ in range(n)]
+            qs = [(q if r.random() < 0.7 else [-x for x in q]) for q in qs]
+            w = tie_weights(r, n)
+        elif st == "antipodal-scale":
+            # clusters of every angular size 1e-8 .. 1 rad, random representatives
+            n = r.choice([2, 3, 5, 8, 17])
+            c = gen_quat(r, r.choice(["uniform", "negative-w", "half-turn"]))
+            sp = min(scale_norm(r, k // len(styles)), 1.2)
+            qs = [list(qmul(true_exp([sp * x for x in rand_dir(r)]), c)) for _ in range(n)]
+            qs = [(q if r.random() < 0.5 else [-x for x in q]) for q in qs]
+            w = mean_weights(r, n, r.choice(["uniform", "positive", "ties"]))
+        elif st == "long":
+            # particle-set sizes at chunk boundaries
+            n = LONG_WIDTHS[long_i % (len(LONG_WIDTHS) - 2)]
+            long_i += 1
+            c = gen_quat(r, "uniform")
+            sp = r.choice([1e-3, 0.1, 0.5])
+            qs = [list(qmul(true_exp([sp * x for x in gen_rotvec(r, "quarter")]), c)) for _ in range(n)]
+            qs = [(q if r.random() < 0.7 else [-x for x in q]) for q in qs]
+            w = mean_weights(r, n, r.choice(["uniform", "positive"]))
+        elif st == "single":
             qs = [gen_quat(r, r.choice(Q_STYLES))]
             w = [1.0]
         elif st == "random":
             n = r.choice([2, 3, 4, 5, 6, 7, 7, 15, 16, 17, 32, 33, 40])
             qs = [gen_quat(r, "uniform") for _ in range(n)]
-            w = mean_weights(r, n, r.choice(["uniform", "positive"]))
+            w = mean_weights(r, n, r.choice(["uniform", "positive", "ties"]))
         elif st == "clustered":
             n = r.choice([2, 3, 4, 5, 6, 7, 7, 15, 16, 17, 32, 33, 40])
             c = gen_quat(r, "uniform")
             sp = r.choice([1e-3, 0.1, 0.5, 1.0])
             qs = [list(qmul(true_exp([sp * x for x in gen_rotvec(r, "quarter")]), c)) for _ in range(n)]
             qs = [(q if r.random() < 0.7 else [-x for x in q]) for q in qs]
-            w = mean_weights(r, n, r.choice(["uniform", "positive"]))
+            w = mean_weights(r, n, r.choice(["uniform", "positive", "ties"]))
         elif st == "all-equal":
             n = r.choice([1, 2, 3, 4, 5, 6, 7, 16, 17, 33, 40])
             q0 = gen_quat(r, r.choice(Q_STYLES))
@@ -381,8 +570,12 @@ def gen_mean(g, n_each):
 
 # ------------------------------------------------------------------ parsing
 
+import re as _re
+_HEX16 = _re.compile(r"[0-9a-f]{16}")
+
+
 def is_hex(x):
-    return len(x) == 16 and all(ch in "0123456789abcdef" for ch in x)
+    return _HEX16.fullmatch(x) is not None
 
 
 def parse_cols(out, k, n):
@@ -431,8 +624,24 @@ def jacobi_eigs(A):
     return sorted((A[i][i] for i in range(n)), reverse=True)
 
 
+def _scaled_ints(xs):
+    """finite doubles -> (integers n_i, k) with x_i = n_i / 2**k exactly"""
+    rs = [float(x).as_integer_ratio() for x in xs]
+    k = max([d.bit_length() - 1 for _, d in rs] + [0])
+    return [n << (k - (d.bit_length() - 1)) for n, d in rs], k
+
+
 def outer_exact(w, qs):
-    return [[sum(Fraction(wi) * Fraction(q[a]) * Fraction(q[b]) for wi, q in zip(w, qs)) for b in range(4)] for a in range(4)]
+    """sum_i w_i q_i q_i^T exactly (Fractions), computed in scaled integer arithmetic (long particle sets)"""
+    W, kw = _scaled_ints(w)
+    flat, kq = _scaled_ints([x for q in qs for x in q])
+    Q = [flat[4 * i:4 * i + 4] for i in range(len(qs))]
+    den = 1 << (kw + 2 * kq)
+    M = [[None] * 4 for _ in range(4)]
+    for a in range(4):
+        for b in range(a, 4):
+            M[a][b] = M[b][a] = Fraction(sum(wi * q[a] * q[b] for wi, q in zip(W, Q)), den)
+    return M
 
 
 def vec_dist_up_to_sign(u, v):
@@ -491,7 +700,7 @@ def chk_log_like(c, idx, cols, dcols, inputs, key, what, P, stats):
 def check_phase1(cases, H, D, P, stats):
     for idx, c in enumerate(cases):
         op = c["op"]
-        if op == "qmean":
+        if op in ("qmean", "qsumchain"):
             continue
         k = 4 if op in ("qexp", "qsum") else 3
         n = len(c["r"]) if op in ("qexp", "qsum") else len(c["q"] if op == "qlog" else c["ql"])
@@ -510,9 +719,17 @@ def check_phase1(cases, H, D, P, stats):
         elif op == "qsum":
             c["expect_text"] = "exp(r/2)-quaternion * q (left multiplication)"
             chk_exp_like(c, idx, cols, dcols, [qmul(true_exp(r), c["q"][0]) for r in c["r"]], "sum", "sum_quaternion_rotation_vector", P, stats)
+            if "sibling" in c and cases[c["of"]].get("res") is not None:
+                for j, (v, vb) in enumerate(zip(cols, cases[c["of"]]["res"])):
+                    if finite(v) and finite(vb) and rotdist(v, vb) > 1e-9:
+                        P.append(("prop", "sum:double-cover", "sum_quaternion_rotation_vector: column %d changes as a rotation (%r -> %r) when the quaternion is replaced by its negative" % (j, vb, v), idx))
         elif op == "qlog":
             c["expect_text"] = "the input quaternion"
             chk_log_like(c, idx, cols, dcols, c["q"], "log", "quaternion_to_rotation_vector", P, stats)
+            if "sibling" in c and cases[c["of"]].get("res") is not None:
+                for j, (v, vb) in enumerate(zip(cols, cases[c["of"]]["res"])):
+                    if finite(v) and finite(vb) and rotdist(true_exp(v), true_exp(vb)) > 1e-9:
+                        P.append(("prop", "log:double-cover", "quaternion_to_rotation_vector changes from %r to %r when the quaternion %r is negated (q and -q are the same rotation)" % (vb, v, cases[c["of"]]["q"][j]), idx))
         else:
             c["expect_text"] = "q_left * conj(q_right)"
             chk_log_like(c, idx, cols, dcols, [qmul(q, qconj(c["qr"][0])) for q in c["ql"]], "diff", "diff_quaternion", P, stats)
@@ -532,7 +749,7 @@ def gen_phase2(cases):
     out = []
     for idx, c in enumerate(cases):
         res = c.get("res")
-        if res is None or "sibling" in c:
+        if res is None or "sibling" in c or c["op"] == "qsumchain":
             continue
         if c["op"] == "qsum":
             out.append(case("qdiff", " ".join(["qdiff", str(len(res)), str(len(c["q"]))] + cm(res) + cm(c["q"])), rt="diff(sum(q,r),q)", src=idx))
@@ -608,7 +825,9 @@ def check_mean(cases, H, Dm, P, stats):
         stats["mean_styles"][c["style"] + ("/" + c["sibling"] if "sibling" in c else "")] = stats["mean_styles"].get(c["style"] + ("/" + c["sibling"] if "sibling" in c else ""), 0) + 1
         if unit_defect(v) > 1e-12:
             P.append(("prop", "mean:not-unit", "mean_quaternion returned %r, squared norm 1%+.3g" % (v, math.fsum(x * x for x in v) - 1.0), idx))
-        M = outer_exact(w, qs)
+        if "_M" not in c:
+            c["_M"] = outer_exact(w, qs)
+        M = c["_M"]
         Mf = [[float(x) for x in row] for row in M]
         Mv = [math.fsum(Mf[a][b] * v[b] for b in range(4)) for a in range(4)]
         lam = math.fsum(v[a] * Mv[a] for a in range(4))
@@ -804,6 +1023,8 @@ def case_from_line(ln, style):
     if op == "qmean":
         n = int(t[1])
         return case(op, ln, w=[unhex(x) for x in t[2:2 + n]], q=f(t[2 + n:], 4), style="random")
+    if op == "qsumchain":
+        return case(op, ln, q0=[unhex(x) for x in t[2:6]], r=f(t[6:], 3), style=style)
     raise ValueError(ln)
 
 
@@ -846,7 +1067,7 @@ def run(ctx):
         cases = [c for c in cases if not c["op"].endswith("f")]
     else:
         cases = witnesses() + load_corpus()
-        for part in (gen_phase1(ctx.gen("convert"), ctx.n(119, 2400)), gen_mean(ctx.gen("mean"), ctx.n(120, 3000))):
+        for part in (gen_phase1(ctx.gen("convert"), ctx.n(119, 2400)), gen_mean(ctx.gen("mean"), ctx.n(120, 3000)), gen_chain(ctx.gen("chain"), ctx.n(60, 1200))):
             off = len(cases)
             for c in part:
                 if "of" in c:
@@ -859,6 +1080,7 @@ def run(ctx):
     D = {i: d for i, d in zip(nonmean, Dl)}
     P = []
     check_phase1(cases, H, D, P, stats)
+    check_chain(cases, H, D, P, stats)
     # phase 2: round trips through the real functions
     p2 = gen_phase2(cases)
     H2, logs2 = vlib.run_harness(binary, [d["line"] for d in p2])
@@ -879,6 +1101,7 @@ def run(ctx):
     Pp, pstats = [], {"branches": {}, "round_trips": {}, "mean_styles": {}}
     saved = [c.get("res") for c in cases]
     check_phase1(cases, Hp, D, Pp, pstats)
+    check_chain(cases, Hp, D, Pp, pstats)
     mean_idx_p = []
     for i, c in enumerate(cases):
         if c["op"] == "qmean":
@@ -899,7 +1122,7 @@ def run(ctx):
     Hf, logsf = vlib.run_harness(binary, [c["line"] for c in fcases])
     check_float(fcases, Hf, P, stats)
 
-    KEEP = ("style", "sibling", "centre", "rs", "q0")
+    KEEP = ("style", "sibling", "centre", "rs", "q0", "unwind")
 
     def meta_of(c, **extra):
         m = {k: c[k] for k in KEEP if k in c}
